@@ -34,6 +34,15 @@ CLAIMED["C10"] = dict(
   note="Trusted: A-ENGINE, A-SMT, A-INT; the history quantifier (any number of calls, any order, interleaved with other transformers) follows by induction from the proved one-call contract (A-HIST, paper); trusted contracts (listed in the evidence): (*SR).Equal (reflect), Parse/registry, (*SR).Transformers (projection constructors normalise NaN defaults, idempotent), datumTransform; the closure's frame on SR objects other than source/dest is not claimed (it normalises the shared WGS84 definition).",
   design="DESIGN.md §3 C10")
 
+CLAIMED["C01"] = dict(
+  text="Deductive proof (govc) of the geom-side wrapper layer of the boolean operations against an abstract region algebra: toPolyClip copies every ring vertex-for-vertex (bit-identical), polyClipToPolygon returns each contour closed (first vertex repeated last), Polygon.op / MultiPolygon.op pass the receiver's rings and ALL polygons of the argument (prefix-fold over Polygons()) and the requested operation to the clipper, so that region(result) == OP(region(receiver), region(argument)) for the 8 Intersection/Union/XOr/Difference methods of Polygon and MultiPolygon and the 3 Union/XOr/Difference methods of *Bounds, with closed rings; the interface contract of Polygons() is proved for all three implementations; (*Bounds).Intersection is proved exact for box-box (nil iff the common rectangle has no area, else the common rectangle, in extended reals) and for other arguments returns nil, the argument itself or the clipped rectangle.",
+  note="Trusted (the large base of this property): the external sweep-line clipper polyclip-go (Construct: region(result) == OP(region(subject), region(clipping)), non-empty contours) — /verif/contracts/external/polyclip.spec; A-REGION axioms (a region depends only on ring contents; closing a ring keeps its region; concatenating contour lists combines regions by rCat); regions are uninterpreted ids of slice contents at evaluation time (inputs/results are not mutated afterwards); A-ENGINE, A-SMT, A-INT. Not decided: correctness of the containment/no-overlap shortcuts of (*Bounds).Intersection as point sets; the XOR-of-box-disjoint-operands table entry of the dependency.",
+  design="DESIGN.md §3 C01")
+CLAIMED["C14"] = dict(
+  text="Deductive proof (govc) of the Clip wrappers: LineString.Clip passes the line as the single contour of the subject and MultiLineString.Clip every member as its own contour (header-identical, in order), the polygonal operand goes through the same proved conversion as in C01, the operation is CLIPLINE (region(pieces) == CLIPLINE(region(line), region(polygon)) by the assumed clipper contract), every returned piece is the clipper's contour without the closing vertex that polyClipToPolygon appends (slice of the same array, length-1, no index out of range since contours are non-empty), the result is a fresh MultiLineString and nothing pre-existing is modified.",
+  note="Trusted: polyclip-go's CLIPLINE semantics (the geometry of this property lives entirely in the dependency), A-REGION, A-ENGINE, A-SMT, A-INT. Thin by nature: lengths/containment of the clipped pieces are not decided by contracts.",
+  design="DESIGN.md §3 C14")
+
 NA = {}
 
 def main():
